@@ -346,6 +346,39 @@ def config_kwarg_tags(lab, mon, rng, gv):
                 lab.P.use(saved)
 
 
+def string_command_line(lab, mon, rng, gv):
+    """The whole command line handed over as ONE string (Configuration("..."), behave.__main__.main("...")): old-style groups behind
+    --tags= / -t, quoted the way a shell would need it, mean what they mean in an argument list."""
+    from behave.configuration import Configuration
+    groups = [rng.choice(gv) for _ in range(rng.choice([1, 2, 2]))]
+    args = render(groups, lambda gi, ai: {"neg_char": rng.choice("-~"), "at": rng.random() < 0.6})
+    words = []
+    for a in args:
+        q = rng.choice(["'", '"', ""])
+        words.append("--tags=%s%s%s" % (q, a, q))      # (always --tags=TEXT: a separate word that starts with '-' is an option for argparse)
+    line = " ".join(words + rng.sample(["--no-color", "-D 'k=v w'", "--no-summary"], rng.randint(0, 1)))
+    want = T.truth_table(T.cnf_to_ast(groups), SUBSETS)
+    saved = getattr(lab.P, "_current", None)
+    case = {"kind": "command-line-as-one-string", "text": line, "groups": groups}
+    mon.case(case, True)
+    mon.seen("command_line_given_as", "one_string")
+    try:
+        c = Configuration(line, load_config=False)
+        got = T.truth_table_of(c.tag_expression.check, SUBSETS)
+        mon.check("v1.config_kwarg_meaning", got == want, lambda: dict(case=case, want=want, got=got, parsed=repr(c.tag_expression), tags=c.tags))
+    except BaseException as ex:
+        mon.check("v1.config_kwarg_meaning", False, dict(case=case, error=repr(ex)))
+    finally:
+        if saved is None:
+            if "_current" in lab.P.__dict__:
+                try:
+                    type.__delattr__(lab.P, "_current")
+                except Exception:
+                    lab.P.use(lab.P.DEFAULT)
+        else:
+            lab.P.use(saved)
+
+
 def config_file_tags(lab, mon, rng, gv):
     """An old-style expression written into a configuration file (tags = @a,-@b on one line, further groups on further lines)
     means what it means on the command line."""
@@ -388,6 +421,14 @@ def config_file_tags(lab, mon, rng, gv):
             # {config.tags} placeholder, which is not used here)
             want_groups = [rng.choice(gv) for _ in range(rng.choice([1, 2]))]
             cmdline = ["--tags=%s" % a for a in render(want_groups, lambda gi, ai: {"neg_char": rng.choice("-~"), "at": True})]
+        elif len(groups) == 1:
+            # the file's ONE or-group comes back through the documented placeholder, next to further old-style groups
+            others = [rng.choice(gv) for _ in range(rng.choice([0, 1]))]
+            cmdline = ["--tags={config.tags}"] + ["--tags=%s" % a for a in render(others, lambda gi, ai: {"neg_char": rng.choice("-~"), "at": True})]
+            if rng.random() < 0.5:
+                cmdline.reverse()
+            want_groups = groups + others
+            mon.seen("config_tags_placeholder", "one_group_with_%d_alternatives" % min(len(groups[0]), 3))
         want = T.truth_table(T.cnf_to_ast(want_groups), SUBSETS)
         case = {"kind": "config-file-tags", "file": fname, "tags_lines": args, "command_line": cmdline}
         mon.case(case, True)
@@ -481,6 +522,7 @@ def run(spec, mon):
             check_cnf(lab, mon, groups, render(groups, lambda gi, ai: dict(dec(gi, ai), limit=None)))
         if rng.random() < 0.5:
             config_kwarg_tags(lab, mon, rng, gv4)
+            string_command_line(lab, mon, rng, gv4)
     # v2 renderings under AUTO_DETECT
     trees = T.enum_trees(c07.OPERANDS, 2, 2) if tier == "quick" else T.enum_trees(c07.OPERANDS, 3, 3)
     for i, ast in enumerate(trees):
